@@ -342,9 +342,23 @@ class Folder:
                 for a in t.elts:
                     self.assign(a, TOP, env)
                 return
-            vs = list(v)
+            vs = list(self.v_iter(v)) if not isinstance(v, (list, tuple)) else list(v)
+            stars = [i for i, a in enumerate(t.elts) if isinstance(a, ast.Starred)]
+            if len(stars) == 1:
+                i = stars[0]
+                after = len(t.elts) - i - 1
+                if len(vs) < len(t.elts) - 1:
+                    from .absint import FoldedRaise
+                    raise FoldedRaise("ValueError", "not enough values to unpack")
+                for a, b in zip(t.elts[:i], vs[:i]):
+                    self.assign(a, b, env)
+                self.assign(t.elts[i].value, vs[i:len(vs) - after], env)
+                for a, b in zip(t.elts[i + 1:], vs[len(vs) - after:] if after else []):
+                    self.assign(a, b, env)
+                return
             if len(vs) != len(t.elts):
-                raise Unknown("unpack arity")
+                from .absint import FoldedRaise
+                raise FoldedRaise("ValueError", "unpack arity")
             for a, b in zip(t.elts, vs):
                 self.assign(a, b, env)
         elif isinstance(t, ast.Subscript):
